@@ -193,6 +193,41 @@ class FpContext(object):
         return False
 
 
+def _copy_value(v, deep, seen):
+    """copy.copy / copy.deepcopy of an abstract value: arrays and containers are new objects (deep: recursively, shared
+    sub-objects stay shared), objects of the package get a new attribute dictionary, immutable values are themselves"""
+    from .absint import Obj
+    if id(v) in seen:
+        return seen[id(v)]
+    if isinstance(v, Arr):
+        r = v.copy()
+    elif isinstance(v, list):
+        r = []
+        seen[id(v)] = r
+        r.extend((_copy_value(e, deep, seen) if deep else e) for e in v)
+        return r
+    elif isinstance(v, dict):
+        r = {}
+        seen[id(v)] = r
+        r.update({k: (_copy_value(e, deep, seen) if deep else e) for k, e in v.items()})
+        return r
+    elif isinstance(v, tuple) and deep and not hasattr(v, '_fields'):
+        r = tuple(_copy_value(e, deep, seen) for e in v)
+    elif isinstance(v, tuple) and deep:
+        r = type(v)(*[_copy_value(e, deep, seen) for e in v])
+    elif isinstance(v, Obj):
+        r = Obj(v.cls)
+        object.__setattr__(r, 'interp', v.interp)
+        seen[id(v)] = r
+        for k, e in v.attrs.items():
+            r.attrs[k] = _copy_value(e, deep, seen) if deep else e
+        return r
+    else:
+        r = v
+    seen[id(v)] = r
+    return r
+
+
 def _memo_key(v, typed):
     """hash key of an abstract argument as functools.lru_cache forms it (== of the values; the type too when typed)"""
     if isinstance(v, bool) or v is None or isinstance(v, str):
@@ -285,6 +320,9 @@ class Models(object):
             ns = Namespace('itertools', **{k: getattr(itertools, k) for k in ('product', 'combinations', 'permutations', 'chain', 'repeat',
                                                                               'combinations_with_replacement', 'islice', 'count',
                                                                               'accumulate', 'zip_longest')})
+            return ns if name is None else getattr(ns, name)
+        if modname == 'copy':
+            ns = Namespace('copy', copy=lambda v: _copy_value(v, False, {}), deepcopy=lambda v, memo=None: _copy_value(v, True, {}))
             return ns if name is None else getattr(ns, name)
         if modname == 'functools':
             ns = Namespace('functools', partial=functools.partial, wraps=lambda wrapped, **k: (lambda fn: fn),
